@@ -8,13 +8,12 @@ package keeper
 //@ smt (define-fun-rec collect ((bits Bytes) (vs Slc_Bytes) (vm (Array Bytes T_relayer_types_Voter)) (pk Bytes) (n Int)) Slc_Bytes
 //@       (ite (<= n 0)
 //@            (mk_Slc_Bytes (store zarr!Int_Bytes_bempty 0 pk) 0 1)
-//@            (ite (bitat bits (- n 1))
-//@                 (mk_Slc_Bytes (store (arr_Slc_Bytes (collect bits vs vm pk (- n 1)))
-//@                                      (+ (off_Slc_Bytes (collect bits vs vm pk (- n 1))) (len_Slc_Bytes (collect bits vs vm pk (- n 1))))
-//@                                      (T_relayer_types_Voter.VoteKey (select vm (select (arr_Slc_Bytes vs) (+ (off_Slc_Bytes vs) (- n 1))))))
-//@                               (off_Slc_Bytes (collect bits vs vm pk (- n 1)))
-//@                               (+ (len_Slc_Bytes (collect bits vs vm pk (- n 1))) 1))
-//@                 (collect bits vs vm pk (- n 1)))))
+//@            (let ((r (collect bits vs vm pk (- n 1))))
+//@              (ite (bitat bits (- n 1))
+//@                   (mk_Slc_Bytes (store (arr_Slc_Bytes r) (+ (off_Slc_Bytes r) (len_Slc_Bytes r))
+//@                                        (T_relayer_types_Voter.VoteKey (select vm (select (arr_Slc_Bytes vs) (+ (off_Slc_Bytes vs) (- n 1))))))
+//@                                 (off_Slc_Bytes r) (+ (len_Slc_Bytes r) 1))
+//@                   r))))
 
 //@ func (Keeper).VerifyProposal
 //@ property C01 C02
